@@ -854,7 +854,7 @@ def main_cases(ctx, g) -> List[Tuple[str, str, Any]]:
               ("bin", "Div", ("call", "fmax", [("i", 1), ("i", 2)]), ("i", 4))]:
         for b in backs:
             out.append(("int-arguments", b, e))
-    nrand, nodd, depth = (250, 60, 3) if ctx.tier == "quick" else (4000, 600, 5)
+    nrand, nodd, depth = (250, 60, 3) if ctx.tier == "quick" else (10000, 1200, 5)
     for i in range(nrand):
         e = random_expr(ctx.rng, usable, ctx.rng.choice(range(1, depth + 1)))
         out.append(("random", backs[i % 3], e))
@@ -1065,7 +1065,8 @@ def row_numeric(row: Dict[str, Any]) -> Optional[str]:
         return f"{row['cpp']}({args}) with includes {row['includes']} does not compile: {got.get('compile')}"
     for k, h in zip(keep, got):
         if not close(exp[k], h):
-            return f"{row['cpp']}{smp[k][:len(e[2])]} = {h!r} but {name}{smp[k][:len(e[2])]} = {exp[k]!r}"
+            at = ", ".join(repr(v) for v in smp[k][: sum(1 for a in e[2] if a[0] == "m")])
+            return f"{row['cpp']}({args}) at ({at}) = {h!r} but {name} there = {exp[k]!r}"
     return None
 
 
@@ -1087,6 +1088,10 @@ def check_table(ctx, g) -> None:
             continue
         if not a.get("holds", False):
             why = [k for k in ("namesake", "header", "ret", "arith") if not a.get(k)]
+            if not a.get("knownPy", True):
+                why.append(f"(the python name {r['py']!r} is not in the model's enumeration of documented <cmath> names: FaxVerif.C12.meaningPy)")
+            if not a.get("knownCpp", True):
+                why.append(f"(the C++ name {r['cpp']!r} is not in the model's enumeration of <cmath> functions: FaxVerif.C12.meaningCpp)")
             num = None
             try:
                 num = row_numeric(r)
@@ -1163,6 +1168,14 @@ def run(ctx):
     g = getattr(ctx, "gen", None) or read_all()
     if g["unrecognised"]:
         ctx.notes.append("translator could not read: " + "; ".join(g["unrecognised"][:5]))
+    if ctx.tier == "thorough" and not any(b.get("kind") == "lean-build" for b in ctx.broken):
+        # replay the compiled modules through the external kernel checker
+        mods = ["FaxVerif.C12.Model", "FaxVerif.C12.Spec", "FaxVerif.Generated.C12Table", "FaxVerif.C12.Proofs", "FaxVerif.C12.Theorems"]
+        with vlib.LakeLock():
+            rc, out, err = vlib.sh(["lake", "env", "leanchecker"] + mods, cwd=vlib.LEAN, timeout=1200)
+        ctx.count("leanchecker:modules", len(mods))
+        if rc != 0:
+            ctx.broken.append({"kind": "leanchecker", "rc": rc, "output": (out + err)[-1500:]})
     # 1. listed findings (still failing -> KNOWN-FINDING) and repaired ones (failing again -> violation)
     known = [e for e in ctx.known_entries("known") if e.get("input", {}).get("expr")]
     fixed = [e for e in ctx.known_entries("fixed") if e.get("input", {}).get("expr")]
@@ -1202,8 +1215,14 @@ def run(ctx):
         if r.get("numeric") and "got" in r["numeric"]:
             ctx.count("g++:cases-evaluated")
             ctx.count("g++:sample-points", len(r["numeric"]["samples"]))
-        ctx.case({"b": r["backend"], "src": r["src"]}, len(called(r["expr"])) > 0 and r["model"].get("documented", False),
-                 {"backend": r["backend"], "query_expression": r["src"], "implementation": canon_impl(r["obs"]), "model": canon_model(r["model"]), "spec_on_implementation": r["spec"]})
+        smp = None
+        if r["stream"] in ("row:times2plus1", "random") and ctx.dist.get("sampled:" + r["stream"], 0) < 1 and r.get("numeric") and "got" in r["numeric"]:
+            ctx.count("sampled:" + r["stream"])
+            smp = {"backend": r["backend"], "query_expression": r["src"], "implementation": canon_impl(r["obs"]), "model": canon_model(r["model"]),
+                   "spec_on_implementation": r["spec"], "sample_points_pt_eta_phi": r["numeric"]["samples"][:3],
+                   "compiled_cpp_values": (r["numeric"]["got"] or [])[:3] if isinstance(r["numeric"]["got"], list) else r["numeric"]["got"],
+                   "function_of_that_name": r["numeric"]["expected"][:3]}
+        ctx.case({"b": r["backend"], "src": r["src"]}, len(called(r["expr"])) > 0 and r["model"].get("documented", False), smp)
         if "err" in r["obs"] and "err" in r["model"]:
             ctx.count("refusal-class-" + ("agrees" if r["obs"]["err"] == r["model"]["err"] else "differs"))
         report(ctx, r)
@@ -1313,17 +1332,18 @@ def replay(ctx, rep) -> int:
 
 
 THEOREMS = ["FaxVerif.C12." + t for t in [
-    "translator_complete", "documented_present", "keys_nodup", "namesake", "header", "return_double", "table_arith", "spec_row",
+    "translator_complete", "documented_present", "keys_nodup", "rows_found", "namesake", "header", "return_double", "table_arith", "spec_row",
     "return_type_faithful_partial", "return_type_faithful_counterexample", "callable_by_value_partial", "callable_by_value_counterexample",
     "documented_accepted_partial", "documented_accepted_counterexample", "rows_reached_partial", "cfg_ok",
     "resolver_spec", "replaced_iff", "call_emitted", "includes_of_called", "usable_in_arithmetic", "scoped_faithful", "refused_only_unresolved",
-    "computes_namesake_partial", "spec_partial", "documented_plain_partial", "documented_scoped_partial", "abs_scope_partial", "documented_never_refused_partial",
+    "computes_namesake_partial", "spec_partial", "documented_plain_partial", "documented_scoped_partial", "abs_scope_partial", "documented_never_refused_partial", "documented_clean_scoped", "c12_partial",
     "computes_namesake_counterexample_round", "computes_namesake_counterexample_remquo", "computes_namesake_counterexample_ilogb",
     "computes_namesake_counterexample_abs_int",
 ]]
 RULE = (
-    "(a) every row of functions_to_replace as it is at run time (row Spec: namesake, header, double, arithmetic type); (b) name resolution on every documented "
-    "name, table key, python builtin, module global of cpp_functions.py and random identifiers; (c) scalar query expressions "
+    "(a) every row of functions_to_replace as it is at run time (row Spec: namesake, header, double, arithmetic type; each row is a non-trivial case); (b) name "
+    "resolution on every documented name, table key, python builtin, module global of cpp_functions.py and random identifiers (non-trivial: documented, replaced or "
+    "refused); (c) scalar query expressions "
     "Select(SelectMany(ds, e -> collection), j -> EXPR) through apply_ast_transformations + write_cpp_files on the three backends: EXPR = every documented "
     "function (arguments by parameter kind: method values, int literal / int method, string constant) standalone and in 10 arithmetic contexts "
     "(*2+1, /2, 1-F, -F, F**2, atan(F), F+cos(eta), (F+int)*float, F/0.5, F+1/2), random expressions of depth <= 3 (quick) / 5 (thorough) over "
